@@ -339,6 +339,23 @@ func runCheck(o *Options) int {
 		}
 	}
 
+	// vacuity guard on the background theory
+	{
+		var gens []*Gen
+		for _, r := range results {
+			gens = append(gens, r.Gen)
+		}
+		qs := w.buildAxiomQueries(gens)
+		var qn []string
+		for n := range qs {
+			qn = append(qn, n)
+		}
+		sort.Strings(qn)
+		for _, n := range qn {
+			ao := &Obligation{Name: "background#COVER#axioms." + n, Kind: "COVER", Func: "background", Cover: true, Goal: "false"}
+			jobs = append(jobs, &job{o: ao, g: newGen(w), fixed: qs[n]})
+		}
+	}
 	if o.only != "" {
 		var js []*job
 		for _, j := range jobs {
@@ -688,7 +705,7 @@ func report(o *Options, w *World, results []*FuncResult, jobs []*job, start time
 	if o.names {
 		for _, n := range order {
 			g := groups[n]
-			fmt.Printf("  %-70s inst=%-3d failed=%d  %s\n", g.name, g.instances, len(g.failed), g.src)
+			fmt.Printf("  %-70s inst=%-3d failed=%d solvers=%v  %s\n", g.name, g.instances, len(g.failed), g.solvers, g.src)
 		}
 	}
 	if o.verbose {
